@@ -474,6 +474,29 @@ def struct_eq(ex, st, a, b):
             if set(a.fields) == set(b.fields):
                 parts = [struct_eq(ex, st, a.fields[k], b.fields[k]) for k in a.fields]
                 return None if any(p is None for p in parts) else z3.And(*parts)
+        if a.kind is None and b.kind is None and (a.discr is not None or b.discr is not None) and not (isinstance(a.discr, str) and isinstance(b.discr, str)):
+            # enum values where at least one discriminant is symbolic: equal discriminants and equal payloads of the common variant
+            ta = a.ty if ex.adts.lookup(a.ty or '') else b.ty
+            adt = ex.adts.lookup(ta or '')
+            if adt and adt['kind'] == 'enum':
+                if not a.ty or not ex.adts.lookup(a.ty): a.ty = ta
+                if not b.ty or not ex.adts.lookup(b.ty): b.ty = ta
+                da, db = ex.discr_value(st, a), ex.discr_value(st, b)
+                parts = [da == db]
+                for v in adt['variants']:
+                    idx = z3.BitVecVal(v['discr'] if v['discr'] is not None else v['index'], 64)
+                    ka = {k for k in a.fields if k[0] == v['name']}; kb = {k for k in b.fields if k[0] == v['name']}
+                    if isinstance(a.discr, str) and a.discr != v['name'] or isinstance(b.discr, str) and b.discr != v['name']:
+                        continue
+                    for k in ka | kb:
+                        if k in a.fields and k in b.fields:
+                            e = struct_eq(ex, st, a.fields[k], b.fields[k])
+                            if e is None:
+                                return None
+                            parts.append(z3.Implies(da == idx, e))
+                        else:
+                            return None
+                return z3.And(*parts)
         if isinstance(a.discr, str) and isinstance(b.discr, str) and a.kind is None and b.kind is None:
             if a.discr != b.discr:
                 return z3.BoolVal(False)
@@ -949,6 +972,8 @@ def m_vec(ctx):
         if 'symlen' not in v0.attrs:
             v0.attrs['symlen'] = z3.BitVec(f'len_{v0.lz}', 64)
         return [(None, v0.attrs['symlen'] if op == 'len' else v0.attrs['symlen'] == 0)]
+    if isinstance(v0, Obj) and 'items' not in v0.attrs and v0.kind is None and op in ('to_vec', 'to_owned', 'into_vec', 'as_slice', 'into_boxed_slice'):
+        return [(None, ex.copy_val(v0))]      # opaque byte buffer: a copy is the same bytes
     v = shaped(ex, st, ctx.args[0], 'Vec')
     items = v.attrs['items']
     if op in ('push', 'push_back'):
